@@ -23,6 +23,73 @@ Section Prover.
   Definition poly6_eval (x t1 t2 t3 t4 t5 t6 : K) : K :=
     x * (t1 + x * (t2 + x * (t3 + x * (t4 + x * (t5 + x * t6))))).
 
+  (* ---- the algebra of the proving procedure, as pure functions of draws and challenges ---- *)
+
+  (* first-phase commitments: A_I1, A_O1, S1 *)
+  Definition p_commit1 (Gs Hs : list MO) (d : nat -> K) (aL aR aO : list K) : MO * MO * MO :=
+    let n1 := length aL in
+    let s_L1 := map d (seq 3 n1) in
+    let s_R1 := map d (seq (3 + n1) n1) in
+    let G1 := firstn n1 Gs in let H1 := firstn n1 Hs in
+    ((d 0%nat • Bb + msm aL G1 + msm aR H1)%M,
+     (d 1%nat • Bb + msm aO G1)%M,
+     (d 2%nat • Bb + msm s_L1 G1 + msm s_R1 H1)%M).
+
+  (* index of the first draw after the first phase / after the second-phase blindings *)
+  Definition base_of (n1 : nat) : nat := (3 + 2 * n1)%nat.
+  Definition base2_of (n1 n2 : nat) : nat := if Nat.ltb 0 n2 then (base_of n1 + 3)%nat else base_of n1.
+  Definition base3_of (n1 n2 : nat) : nat := (base2_of n1 n2 + 2 * n2)%nat.
+
+  Definition blind2 (d : nat -> K) (n1 n2 : nat) (j : nat) : K :=
+    if Nat.ltb 0 n2 then d (base_of n1 + j)%nat else f0.
+
+  (* second-phase commitments: A_I2, A_O2, S2 (identity when the second phase has no gate) *)
+  Definition p_commit2 (Gs Hs : list MO) (d : nat -> K) (n1 : nat) (aL aR aO : list K) : MO * MO * MO :=
+    let n := length aL in
+    let n2 := (n - n1)%nat in
+    let s_L2 := map d (seq (base2_of n1 n2) n2) in
+    let s_R2 := map d (seq (base2_of n1 n2 + n2) n2) in
+    let G2 := skipn n1 (firstn n Gs) in let H2 := skipn n1 (firstn n Hs) in
+    if Nat.ltb 0 n2 then
+      ((blind2 d n1 n2 0 • Bb + msm (skipn n1 aL) G2 + msm (skipn n1 aR) H2)%M,
+       (blind2 d n1 n2 1 • Bb + msm (skipn n1 aO) G2)%M,
+       (blind2 d n1 n2 2 • Bb + msm s_L2 G2 + msm s_R2 H2)%M)
+    else (m0, m0, m0).
+
+  (* masking vectors s_L = s_L1 ++ s_L2, s_R = s_R1 ++ s_R2 *)
+  Definition mask_L (d : nat -> K) (n1 n2 : nat) : list K :=
+    map d (seq 3 n1) ++ map d (seq (base2_of n1 n2) n2).
+  Definition mask_R (d : nat -> K) (n1 n2 : nat) : list K :=
+    map d (seq (3 + n1) n1) ++ map d (seq (base2_of n1 n2 + n2) n2).
+
+  (* the vector polynomials l(X), r(X) and the coefficients of t(X) = <l(X), r(X)> *)
+  Record polys := mkPolys {
+    pl1 : list K; pl2 : list K; pl3 : list K; pr0 : list K; pr1 : list K; pr3 : list K;
+    pt1 : K; pt2 : K; pt3 : K; pt4 : K; pt5 : K; pt6 : K }.
+
+  Definition p_polys (w : weights K) (y : K) (aL aR aO sL sR : list K) : polys :=
+    let n := length aL in
+    let exp_y_inv := powers (finv y) n in
+    let exp_y := powers y n in
+    let l1 := map2 fadd aL (map2 fmul exp_y_inv (wR w)) in
+    let l2 := aO in
+    let l3 := sL in
+    let r0 := map2 fsub (wO w) exp_y in
+    let r1 := map2 fadd (map2 fmul exp_y aR) (wL w) in
+    let r3 := map2 fmul exp_y sR in
+    mkPolys l1 l2 l3 r0 r1 r3
+            (ip l1 r0) (ip l1 r1 + ip l2 r0) (ip l2 r1 + ip l3 r0) (ip l1 r3 + ip l3 r1) (ip l2 r3) (ip l3 r3).
+
+  (* padded l(x), r(x) handed to the inner-product argument *)
+  Definition p_lvec (pl : polys) (x : K) (n pad : nat) : list K :=
+    vecpoly3_eval x (zeros n) (pl1 pl) (pl2 pl) (pl3 pl) ++ zeros pad.
+  Definition p_rvec (pl : polys) (x y : K) (n padded_n : nat) : list K :=
+    vecpoly3_eval x (pr0 pl) (pr1 pl) (zeros n) (pr3 pl) ++ map fopp (skipn n (powers y padded_n)).
+
+  Definition g_factors (u : K) (n1 n padded_n : nat) : list K := repeat f1 n1 ++ repeat u (padded_n - n1).
+  Definition h_factors (y u : K) (n1 n padded_n : nat) : list K :=
+    map2 fmul (powers (finv y) padded_n) (g_factors u n1 n padded_n).
+
   (* everything the proving procedure derives, kept for the theorems and the correspondence *)
   Record prover_out := mkPO {
     po_proof : r1cs_proof; po_tr : tr_t;
@@ -30,7 +97,8 @@ Section Prover.
     po_ipp_chal : list K;
     po_events : list (event K MO);
     po_l : list K; po_r : list K;    (* l(x), r(x) padded *)
-    po_n1 : nat; po_n : nat; po_ndraws : nat }.
+    po_n1 : nat; po_n : nat; po_ndraws : nat;
+    po_state : pstate K MO }.
 
   (* [Gs], [Hs]: party 0's generator vectors; gens_capacity = length.
      [d i]: i-th scalar drawn from the TranscriptRng. *)
@@ -39,13 +107,7 @@ Section Prover.
     let tr0 := append_u64 (p_tr s) "m" (length (p_v s)) in
     let n1 := length (p_aL s) in
     if Nat.ltb cap n1 then Err EGens else
-    let i_b1 := d 0%nat in let o_b1 := d 1%nat in let s_b1 := d 2%nat in
-    let s_L1 := map d (seq 3 n1) in
-    let s_R1 := map d (seq (3 + n1) n1) in
-    let G1 := firstn n1 Gs in let H1 := firstn n1 Hs in
-    let AI1 := (i_b1 • Bb + msm (p_aL s) G1 + msm (p_aR s) H1)%M in
-    let AO1 := (o_b1 • Bb + msm (p_aO s) G1)%M in
-    let SS1 := (s_b1 • Bb + msm s_L1 G1 + msm s_R1 H1)%M in
+    let '(AI1, AO1, SS1) := p_commit1 Gs Hs d (p_aL s) (p_aR s) (p_aO s) in
     let tr1 := append_point (append_point (append_point tr0 "A_I1" AI1) "A_O1" AO1) "S1" SS1 in
     let s_tr1 := mkP tr1 (p_cons s) (p_aL s) (p_aR s) (p_aO s) (p_v s) (p_vb s) (p_def s) (p_pend s) in
     let '(s2, ev, r2) := p_phase2 RO s_tr1 in
@@ -57,66 +119,38 @@ Section Prover.
     let padded_n := next_pow2 n in
     let pad := (padded_n - n)%nat in
     if Nat.ltb cap padded_n then Err EGens else
-    let has2 := Nat.ltb 0 n2 in
-    let base := (3 + 2 * n1)%nat in
-    let i_b2 := if has2 then d base else f0 in
-    let o_b2 := if has2 then d (base + 1)%nat else f0 in
-    let s_b2 := if has2 then d (base + 2)%nat else f0 in
-    let base2 := if has2 then (base + 3)%nat else base in
-    let s_L2 := map d (seq base2 n2) in
-    let s_R2 := map d (seq (base2 + n2) n2) in
-    let G2 := skipn n1 (firstn n Gs) in let H2 := skipn n1 (firstn n Hs) in
-    let AI2 := if has2 then (i_b2 • Bb + msm (skipn n1 (p_aL s2)) G2 + msm (skipn n1 (p_aR s2)) H2)%M else m0 in
-    let AO2 := if has2 then (o_b2 • Bb + msm (skipn n1 (p_aO s2)) G2)%M else m0 in
-    let SS2 := if has2 then (s_b2 • Bb + msm s_L2 G2 + msm s_R2 H2)%M else m0 in
+    let '(AI2, AO2, SS2) := p_commit2 Gs Hs d n1 (p_aL s2) (p_aR s2) (p_aO s2) in
     let tr2 := append_point (append_point (append_point (p_tr s2) "A_I2" AI2) "A_O2" AO2) "S2" SS2 in
     let '(y, tr3) := challenge RO tr2 "y" in
     let '(z, tr4) := challenge RO tr3 "z" in
     let w := p_flatten z n (length (p_v s2)) (p_cons s2) in
-    let y_inv := finv y in
-    let exp_y_inv := powers y_inv padded_n in
-    let exp_y := powers y n in
-    let sL := s_L1 ++ s_L2 in let sR := s_R1 ++ s_R2 in
-    let l1 := map2 fadd (p_aL s2) (map2 fmul exp_y_inv (wR w)) in
-    let l2 := p_aO s2 in
-    let l3 := sL in
-    let r0 := map2 fsub (wO w) exp_y in
-    let r1 := map2 fadd (map2 fmul exp_y (p_aR s2)) (wL w) in
-    let r3 := map2 fmul exp_y sR in
-    let t1 := ip l1 r0 in
-    let t2 := ip l1 r1 + ip l2 r0 in
-    let t3 := ip l2 r1 + ip l3 r0 in
-    let t4 := ip l1 r3 + ip l3 r1 in
-    let t5 := ip l2 r3 in
-    let t6 := ip l3 r3 in
-    let base3 := (base2 + 2 * n2)%nat in
+    let pl := p_polys w y (p_aL s2) (p_aR s2) (p_aO s2) (mask_L d n1 n2) (mask_R d n1 n2) in
+    let base3 := base3_of n1 n2 in
     let tb1 := d base3 in let tb3 := d (base3 + 1)%nat in let tb4 := d (base3 + 2)%nat in
     let tb5 := d (base3 + 3)%nat in let tb6 := d (base3 + 4)%nat in
-    let T1 := commit t1 tb1 in let T3 := commit t3 tb3 in let T4 := commit t4 tb4 in
-    let T5 := commit t5 tb5 in let T6 := commit t6 tb6 in
+    let T1 := commit (pt1 pl) tb1 in let T3 := commit (pt3 pl) tb3 in let T4 := commit (pt4 pl) tb4 in
+    let T5 := commit (pt5 pl) tb5 in let T6 := commit (pt6 pl) tb6 in
     let tr5 := append_point (append_point (append_point (append_point (append_point tr4
                  "T_1" T1) "T_3" T3) "T_4" T4) "T_5" T5) "T_6" T6 in
     let '(u, tr6) := challenge RO tr5 "u" in
     let '(x, tr7) := challenge RO tr6 "x" in
     let tb2 := vsum (map2 (fun c vb => vb * c) (wV w) (p_vb s2)) in
-    let tx := poly6_eval x t1 t2 t3 t4 t5 t6 in
+    let tx := poly6_eval x (pt1 pl) (pt2 pl) (pt3 pl) (pt4 pl) (pt5 pl) (pt6 pl) in
     let txb := poly6_eval x tb1 tb2 tb3 tb4 tb5 tb6 in
-    let l_vec := vecpoly3_eval x (zeros n) l1 l2 l3 ++ zeros pad in
-    let r_vec := vecpoly3_eval x r0 r1 (zeros n) r3
-                 ++ map fopp (skipn n (powers y padded_n)) in
-    let i_b := i_b1 + u * i_b2 in
-    let o_b := o_b1 + u * o_b2 in
-    let s_b := s_b1 + u * s_b2 in
+    let l_vec := p_lvec pl x n pad in
+    let r_vec := p_rvec pl x y n padded_n in
+    let i_b := d 0%nat + u * blind2 d n1 n2 0 in
+    let o_b := d 1%nat + u * blind2 d n1 n2 1 in
+    let s_b := d 2%nat + u * blind2 d n1 n2 2 in
     let eb := x * (i_b + x * (o_b + x * s_b)) in
     let tr8 := append_scalar (append_scalar (append_scalar tr7 "t_x" tx) "t_x_blinding" txb) "e_blinding" eb in
     let '(wch, tr9) := challenge RO tr8 "w" in
     let Q := (wch • B)%M in
-    let G_factors := repeat f1 n1 ++ repeat u (n2 + pad) in
-    let H_factors := map2 fmul exp_y_inv G_factors in
     let '(ip_pf, tr10, us) :=
-      ipp_create RO tr9 Q G_factors H_factors (firstn padded_n Gs) (firstn padded_n Hs) l_vec r_vec in
+      ipp_create RO tr9 Q (g_factors u n1 n padded_n) (h_factors y u n1 n padded_n)
+                 (firstn padded_n Gs) (firstn padded_n Hs) l_vec r_vec in
     Ok (mkPO (mkProof AI1 AO1 SS1 AI2 AO2 SS2 T1 T3 T4 T5 T6 tx txb eb ip_pf) tr10
-             [y; z; u; x; wch] us ev l_vec r_vec n1 n (base3 + 5))
+             [y; z; u; x; wch] us ev l_vec r_vec n1 n (base3 + 5) s2)
     end.
 End Prover.
 Arguments r1cs_proof : clear implicits.
